@@ -289,6 +289,21 @@ Theorem C08_nt_stor_retr : forall users ui u, nth_error users ui = Some u ->
 Proof. exact nt_stor_retr. Qed.
 Print Assumptions C08_nt_stor_retr.
 
+(* ... and names denote DISTINCT objects: the upload leaves every sibling g <> f of the directory exactly
+   as it was, whatever g is (f with a suffix such as .part, .tmp, ~, or a prefix): nothing is created,
+   changed or removed under another name on the way *)
+Theorem C08_nt_stor_sibling_untouched : forall users ui u, nth_error users ui = Some u ->
+  forall w cwd pf D f chD bytes,
+    ready ui w cwd -> valid_path pf -> target cwd pf = D ++ [f] -> rw u (D ++ [f]) ->
+    lookup D (w_fs w) = Some (NDir chD) -> assoc_t f chD = None ->
+    exists w' outs,
+      irun users w (prep ++ [ILine (client_cmd (t_of "STOR") pf) (DSend bytes)] ++
+                    prep ++ [ILine (client_cmd (t_of "RETR") pf) DNone]) = Some (w', outs) /\
+      lookup (D ++ [f]) (w_fs w') = Some (NFile bytes) /\
+      forall g, g <> f -> lookup (D ++ [g]) (w_fs w') = lookup (D ++ [g]) (w_fs w).
+Proof. exact nt_stor_sibling_untouched. Qed.
+Print Assumptions C08_nt_stor_sibling_untouched.
+
 (* ... renaming any existing node to a free sibling name *)
 Theorem C08_nt_rename : forall users ui u, nth_error users ui = Some u ->
   forall w cwd p q par n m ch x,
